@@ -522,6 +522,9 @@ def _extra_enums():
         "NegAlias": [("ZERO", 0), ("MINUS", -1), ("NEG", -1), ("LOW", -(2**31))],
         "Gaps": [("A", 0), ("B", 5), ("C", 1000), ("D", 2**31 - 1)],
         "ManyAlias": [("Z", 0), ("P", 2), ("Q", 2), ("R", 2), ("Z2", 0), ("S", 3)],
+        "Dense": [("D0", 0), ("D1", 1), ("D2", 2), ("D3", 3)],
+        "DenseAlias": [("E0", 0), ("E1", 1), ("E1B", 1), ("E2", 2)],
+        "Single": [("ONLY", 0)],
     }
     for name, decl in shapes.items():
         ns = {}
@@ -536,10 +539,40 @@ def _c20_static(rnd):
     col = Collector("C20")
     for EnumCls, decl in [(C.Color, C.ENUMS["Color"])] + _extra_enums():
         _c20_lookup(col, EnumCls, decl)
+        _c20_undefined(col, EnumCls, decl)
     Color = C.Color
     decl = C.ENUMS["Color"]
     _c20_rest(col, Color, decl)
     return col.result()
+
+
+def _c20_undefined(col, E, decl):
+    """numbers the enum does not define stay what they are: try_value keeps the number, names no member, and the
+    constructor / name lookups reject them (every enum shape, numbers around the defined range and its mirror image)"""
+    tag = "" if E is C.Color else ":alias-shapes"
+    defined = {n for _, n in decl}
+    cand = set()
+    for n in defined:
+        cand |= {n - 1, n + 1, -n, -n - 1, -n + 1}
+    cand |= {-1, -2, -3, -4, -5, len(decl), -len(decl), len(decl) + 1, 2**31 - 1, -(2**31), 7}
+    for n in sorted(cand - defined):
+        try:
+            u = E.try_value(n)
+            if not (int(u) == n and u.value == n and u == n):
+                col.add("undefined-number-changed%s" % tag, "%s.try_value(%d) -> %r (value %r)" % (E.__name__, n, u, getattr(u, "value", None)))
+            elif u.name is not None:
+                col.add("undefined-number-gets-a-member-name%s" % tag, "%s.try_value(%d).name == %r" % (E.__name__, n, u.name))
+            elif any(u is m for m in E):
+                col.add("undefined-number-is-a-member%s" % tag, "%s.try_value(%d) is a defined member" % (E.__name__, n))
+        except Exception as e:
+            col.add("undefined-number-try_value-raises%s" % tag, "%s.try_value(%d): %s" % (E.__name__, n, exc(e)))
+        try:
+            E(n)
+            col.add("constructor-accepts-undefined-number%s" % tag, "%s(%d) did not raise" % (E.__name__, n))
+        except ValueError:
+            pass
+        except Exception as e:
+            col.add("constructor-raises-other%s" % tag, "%s(%d): %s" % (E.__name__, n, exc(e)))
 
 
 def _c20_lookup(col, Color, decl):
